@@ -249,6 +249,7 @@ FALLBACK = {
     "c07_position": [("bar_hidden", ["C06", "C07"], "getters after operation histories, hidden vs visible")],
     "c17_adaptors": [("iter_adaptors", ["C17"], "external / reverse / internal iteration (8 modes x 3 lengths, second handle on the bar), Read with 5 chunk scripts x 3 buffer sizes incl. errors, read_exact, read_to_string, interleaved fill_buf / consume, 9 seeks x 2 bar offsets, Write / write_vectored with 4 chunk scripts")],
     "c13_format_bar": [("bar_cells", ["C13"], "{bar:N} geometry for 6 widths x 9 lengths (up to 2^24) x 8 positions on the real f32 code")],
+    "c16_tabs": [("tabs_everywhere", ["C16"], "message / prefix / literal tabs after every sequence of 3 operations out of 7 (set_message, set_prefix, set_tab_width x2, set_style x2, finish_with_message) x 2 initial widths; custom keys writing a tab as str, char and format argument")],
     "c09_estimator": [("est_laws", ["C09"], "finite / non-negative / bounded / steady-exact / reset-forgets on the real f64 estimator: 5 rates x 6 gap patterns x 40 samples")],
     "c14_style": [("style_build", ["C14"], "builders reject or produce a renderable style (family of tick/progress strings)")],
     "c10_template": [("template_total", ["C10"], "parser totality on generated strings up to length 6 over the grammar alphabet"),
